@@ -1,8 +1,81 @@
+import Corro.Model.Needs
 import Driver.Util
-/-! Driver stub for C04: not built yet. -/
+/-!
+Driver for C04.  One op:
+
+`can <ourActor> <ourHeads> <ourNeed> <ourPartials> <peerActor> <peerHeads> <peerNeed> <peerPartials>`
+
+* heads    `a:h;a:h`                 (`-` = empty map)
+* need     `a:lo-hi,lo-hi;a:…`       (`a:-` = empty range list)
+* partials `a:v=lo-hi,lo-hi/v=-;a:…`
+
+Map keys must be strictly increasing (the canonical form of a `HashMap`), otherwise `bad-op`.
+Answer: `a:F<lo>-<hi>,P<v>=<lo>-<hi>+<lo>-<hi>,…;a:…` (actors ascending, needs in the order
+`compute_available_needs` pushes them, partial needs by ascending version), `-` for no needs,
+`err backward-range` if any range has `lo > hi` (the real code would panic inside rangemap).
+-/
 namespace Driver.C04
+open Corro Corro.Needs
+
+def kv? (s sep : String) : Option (String × String) :=
+  match s.splitOn sep with
+  | [a, b] => some (a, b)
+  | _ => none
+
+def parseHeads (s : String) : Option (List (Nat × Nat)) :=
+  (splitList s ";").mapM (fun e => do
+    let (a, h) ← kv? e ":"
+    pure (← a.toNat?, ← h.toNat?))
+
+def parseNeed (s : String) : Option (List (Nat × List (Nat × Nat))) :=
+  (splitList s ";").mapM (fun e => do
+    let (a, rs) ← kv? e ":"
+    pure (← a.toNat?, ← rangeList? rs))
+
+def parsePartials (s : String) : Option (List (Nat × List (Nat × List (Nat × Nat)))) :=
+  (splitList s ";").mapM (fun e => do
+    let (a, vs) ← kv? e ":"
+    let pm ← (splitList vs "/").mapM (fun ve => do
+      let (v, rs) ← kv? ve "="
+      pure (← v.toNat?, ← rangeList? rs))
+    pure (← a.toNat?, pm))
+
+def increasing : List Nat → Bool
+  | a :: b :: t => a < b && increasing (b :: t)
+  | _ => true
+
+def keysOk (s : SyncState) : Bool :=
+  increasing (s.heads.map (·.1)) && increasing (s.need.map (·.1)) &&
+  increasing (s.partialNeed.map (·.1)) && s.partialNeed.all (fun e => increasing (e.2.map (·.1)))
+
+def forward (rs : List (Nat × Nat)) : Bool := rs.all (fun r => r.1 ≤ r.2)
+
+def rangesOk (s : SyncState) : Bool :=
+  s.need.all (fun e => forward e.2) && s.partialNeed.all (fun e => e.2.all (fun p => forward p.2))
+
+def parseState (a h n p : String) : Option SyncState := do
+  let st : SyncState := ⟨← a.toNat?, ← parseHeads h, ← parseNeed n, ← parsePartials p⟩
+  if keysOk st then pure st else none
+
+def showNeed : Need → String
+  | .full lo hi => s!"F{lo}-{hi}"
+  | .part v sq => s!"P{v}=" ++ "+".intercalate (sq.map showRange)
+
+def showNeeds (ns : List (Actor × List Need)) : String :=
+  showList (ns.map (fun an => s!"{an.1}:" ++ ",".intercalate (an.2.map showNeed))) ";"
+
+def run (toks : List String) : Option String :=
+  match toks with
+  | ["can", ua, uh, un, up, pa, ph, pn, pp] => do
+    let us ← parseState ua uh un up
+    let peer ← parseState pa ph pn pp
+    if !(rangesOk us && rangesOk peer) then pure "err backward-range" else
+    pure (showNeeds (computeAvailableNeeds us peer))
+  | _ => none
+
 abbrev State := Unit
 def init : State := ()
-def step (st : State) (_toks : List String) : Option (State × String) := some (st, "bad-op")
+def step (st : State) (toks : List String) : Option (State × String) := (run toks).map (st, ·)
+
 end Driver.C04
 def main : IO Unit := Driver.runLoop Driver.C04.init Driver.C04.step
